@@ -80,6 +80,17 @@ struct Proc {
   int eintr_left = 2;           // EINTR answers still available in this call
   bool eintr_rw = false;        // also answer EINTR on non-blocking read()/write() (run_process names EINTR there)
   int eintr_given[EI_N] = {0, 0, 0, 0};
+  // --- time model (round 3): every wrapped system call costs 1 virtual microsecond; a parent that repeats an
+  // identical "poll() returns at once" round without doing anything in between while the child cannot move is
+  // fast-forwarded (first to the expiry of the call's timeout, then by 1, 2, 4, ... microseconds per round)
+  uint64_t activity = 0;        // child steps + the parent's read/write/close/kill on its pipes and child
+  uint64_t spin_sig = 0, spin_activity = 0;
+  int spin_count = 0;
+  uint64_t spin_jump = 1;
+  uint64_t timeout_hint = 0;    // the timeout / deadline given to the call under test (virtual us since the call began)
+  uint64_t fast_forwards = 0;
+  // --- the child's view of its standard streams (round 3)
+  int fdmask = -1;              // bit i set = descriptor i was open when the helper started (-1: not asked yet)
 } P;
 
 int g_bad_kill = 0;  // kill() aimed at something that is not the child (pid <= 0 would signal whole process groups)
@@ -117,12 +128,14 @@ Ack command(int op, int arg) {
 // is blocked (no data to read / no room to write), idle forever (Z), finished or dead.
 bool child_step() {
   if (!P.alive || P.pc >= P.script.size()) return false;
+  if (P.fdmask < 0) P.fdmask = (int)command('F', 0).result;
   Step& s = P.script[P.pc];
   switch (s.k) {
     case ST_R:
     case ST_RALL: {
       Ack a = command('R', s.k == ST_R ? (int)s.arg : 65536);
       if (a.result == -1) return false;
+      if (a.result == -3) { P.pc++; break; }  // the child has no stdin (EBADF): its read fails and it moves on
       if (a.result < 0) do_abort("ENGINE: helper child read error");
       P.in_total = a.total;
       P.in_hash = a.hash;
@@ -137,7 +150,7 @@ bool child_step() {
       if (P.w_remaining == 0) { P.w_remaining = -1; P.pc++; break; }
       Ack a = command('0' + st, (int)std::min<int64_t>(P.w_remaining, 65536));
       if (a.result == -1) return false;
-      if (a.result == -2) { P.w_remaining = -1; P.pc++; break; }  // reader gone: the child gives up on this write
+      if (a.result == -2 || a.result == -3) { P.w_remaining = -1; P.pc++; break; }  // reader gone / stream closed: the child gives up on this write
       P.out_total[st] = a.total;
       P.w_remaining -= a.result;
       if (P.w_remaining == 0) { P.w_remaining = -1; P.pc++; }
@@ -151,6 +164,7 @@ bool child_step() {
     case ST_Z: return false;
   }
   P.child_steps++;
+  P.activity++;
   P.polls_without_child_progress = 0;
   return true;
 }
@@ -158,6 +172,7 @@ bool child_step() {
 bool owned_fd(int fd) { return P.active && P.owned.count(fd); }
 
 void count_syscall() {
+  P.vclock++;  // no system call is free
   if (++P.syscalls > SYSCALL_CAP) do_abort(vf::fmt("livelock: more than %zu system calls by the parent in one call", SYSCALL_CAP));
 }
 
@@ -212,7 +227,7 @@ extern "C" int __wrap_pipe(int* fds) {
 }
 
 extern "C" int __wrap_close(int fd) {
-  if (P.active) P.owned.erase(fd);
+  if (P.active && P.owned.erase(fd)) P.activity++;
   return __real_close(fd);
 }
 
@@ -249,6 +264,27 @@ extern "C" int __wrap_poll(struct pollfd* fds, nfds_t n, int timeout) {
   bool first = true;
   for (;;) {
     int rc = __real_poll(fds, n, 0);
+    if (rc > 0) {
+      // Spin detection.  The same descriptors report the same events as in the previous poll, the parent touched
+      // neither its pipes nor the child in between, and the child made no step: nothing but the clock can change what
+      // the parent does next.  Real time passes while it spins; if the child cannot move either, the spin lasts until
+      // the next instant the parent could be waiting for.
+      uint64_t sig = 1469598103934665603ull;
+      for (nfds_t i = 0; i < n; i++) for (uint64_t v : {(uint64_t)(unsigned)fds[i].fd, (uint64_t)(unsigned short)fds[i].events, (uint64_t)(unsigned short)fds[i].revents}) sig = (sig ^ v) * 1099511628211ull;
+      if (sig == P.spin_sig && P.activity == P.spin_activity) P.spin_count++;
+      else { P.spin_count = 0; P.spin_jump = 1; }
+      P.spin_sig = sig;
+      if (P.spin_count >= 2) {
+        if (child_step()) { P.spin_count = 0; P.spin_jump = 1; P.spin_activity = P.activity; continue; }  // poll again
+        else {
+          uint64_t target = P.vclock + P.spin_jump;
+          if (P.spin_jump < (1ull << 40)) P.spin_jump *= 2;
+          if (P.timeout_hint && P.timeout_hint < (1ull << 62) && target < P.timeout_hint) target = P.timeout_hint;
+          if (target > P.vclock && target < (1ull << 62)) { P.vclock = target; P.fast_forwards++; }
+        }
+      }
+      P.spin_activity = P.activity;
+    }
     if (rc != 0 || timeout == 0) return rc;
     // nothing ready: the parent would sleep; a signal may end the sleep, otherwise the child gets to move
     if (first && eintr_here(EI_POLL)) { errno = EINTR; return -1; }
@@ -262,6 +298,7 @@ extern "C" int __wrap_poll(struct pollfd* fds, nfds_t n, int timeout) {
 
 extern "C" ssize_t __wrap_read(int fd, void* buf, size_t n) {
   if (!owned_fd(fd)) return __real_read(fd, buf, n);
+  P.activity++;
   pre_syscall();
   if (!is_blocking(fd)) {
     if (P.eintr_rw && eintr_here(EI_READ)) { errno = EINTR; return -1; }
@@ -282,6 +319,7 @@ extern "C" ssize_t __wrap_read(int fd, void* buf, size_t n) {
 
 extern "C" ssize_t __wrap_write(int fd, const void* buf, size_t n) {
   if (!owned_fd(fd)) return __real_write(fd, buf, n);
+  P.activity++;
   pre_syscall();
   if (!is_blocking(fd)) {
     if (P.eintr_rw && eintr_here(EI_WRITE)) { errno = EINTR; return -1; }
@@ -318,6 +356,7 @@ extern "C" int __wrap_kill(pid_t pid, int sig) {
   }
   int r = __real_kill(pid, sig);
   if (P.active && pid == P.pid && r == 0 && sig != 0) {
+    P.activity++;
     P.kills.push_back({sig, P.vclock, P.alive});
     bool fatal = sig == SIGKILL || (sig == SIGTERM && !P.ignores_term);
     if (P.alive && fatal) {
